@@ -66,7 +66,15 @@ def emit_bk(bk):
         return 'BPlain'
     if bk[0] == 'BImport':
         return f'(BImport {q(bk[1])})'
-    return f'(BFrom {q(bk[1])} {q(bk[2])})'
+    if bk[0] == 'BFrom':
+        return f'(BFrom {q(bk[1])} {q(bk[2])})'
+    if bk[0] == 'BAttr':
+        return f'(BAttr {emit_bk(bk[1])} {q(bk[2])})'
+    if bk[0] == 'BInert':
+        return f'(BInert {q(bk[1])})'
+    if bk[0] == 'BDel':
+        return 'BDel'
+    raise Gap(f'internal: binding kind {bk[0]}')
 
 
 def zl(n):
@@ -100,6 +108,7 @@ class Translator:
         self.modname = modname                 # e.g. psiaudio.stim
         self.top = Scope('KModule', '<module>')
         self.stack = [self.top]
+        self.inert = None                      # reason, while directly inside `if __name__ == '__main__':`
         self.imports = []                      # (bk) of every import statement, any scope
         self.chains = []                       # (root name, attrs) of every attribute chain
 
@@ -119,6 +128,19 @@ class Translator:
             if p is not None:
                 out.append(p)
         return '.'.join(out + [name])
+
+    def bind(self, x, line, bk=('BPlain',)):
+        """bindings made directly at module level inside `if __name__ == '__main__':` do not exist after import"""
+        if self.cur is self.top and self.inert:
+            bk = ('BInert', self.inert)
+        self.cur.bind(x, line, bk)
+
+    def at_module_level(self):
+        return self.cur is self.top
+
+    def import_kinds(self, name):
+        """kinds of the module-level bindings of `name` emitted so far (purely syntactic)"""
+        return [it[2] for it in self.top.items if not isinstance(it, Scope) and it[0] == 'Bind' and it[1] == name]
 
     def push(self, kind, name):
         s = Scope(kind, self.qual_for(name))
@@ -147,7 +169,7 @@ class Translator:
         if n.type_ignores:
             raise Gap('type_ignores')
         for x in IMPLICIT_GLOBALS:
-            self.cur.bind(x, 0)
+            self.bind(x, 0)
         self.visits(n.body)
 
     # -- definitions
@@ -162,7 +184,7 @@ class Translator:
 
     def bind_arguments(self, a):
         for arg in a.posonlyargs + a.args + [x for x in (a.vararg,) if x] + a.kwonlyargs + [x for x in (a.kwarg,) if x]:
-            self.cur.bind(arg.arg, arg.lineno)
+            self.bind(arg.arg, arg.lineno)
 
     def v_FunctionDef(self, n):
         if getattr(n, 'type_params', None):
@@ -172,7 +194,7 @@ class Translator:
         self.visits(n.decorator_list)
         self.arguments(n.args)
         self.visit(n.returns)
-        self.cur.bind(n.name, n.lineno)
+        self.bind(n.name, n.lineno)
         self.push('KFunction', n.name)
         self.bind_arguments(n.args)
         self.visits(n.body)
@@ -192,13 +214,13 @@ class Translator:
         self.visits(n.bases)
         for k in n.keywords:
             self.visit(k.value)
-        self.cur.bind(n.name, n.lineno)
+        self.bind(n.name, n.lineno)
         first = n.decorator_list[0].lineno if n.decorator_list else n.lineno
         self.push('KClass', n.name)
         # what every class body does first: __module__ = __name__ ; __qualname__ = '...'
         self.cur.use('__name__', first)
-        self.cur.bind('__module__', first)
-        self.cur.bind('__qualname__', first)
+        self.bind('__module__', first)
+        self.bind('__qualname__', first)
         self.visits(n.body)
         self.pop()
 
@@ -208,20 +230,78 @@ class Translator:
 
     def v_Delete(self, n):
         for t in n.targets:
-            self.target(t)
+            self.del_target(t)
+
+    def del_target(self, t):
+        if isinstance(t, ast.Name):
+            self.bind(t.id, t.lineno, ('BDel',))     # local for the compiler, unbound afterwards at run time
+        elif isinstance(t, (ast.Tuple, ast.List)):
+            for e in t.elts:
+                self.del_target(e)
+        elif isinstance(t, ast.Attribute):
+            self.visit(t.value)
+        elif isinstance(t, ast.Subscript):
+            self.visit(t.value)
+            self.visit(t.slice)
+        else:
+            raise Gap(f'del target {type(t).__name__} at line {t.lineno}')
 
     def v_Assign(self, n):
         if n.type_comment:
             raise Gap('type_comment')
         self.visit(n.value)
+        bk = self.alias_kind(n.value) if self.at_module_level() else None
         for t in n.targets:
+            if bk is not None and isinstance(t, ast.Name):
+                self.bind(t.id, t.lineno, bk)
+            else:
+                self.target(t)
+
+    def alias_kind(self, v):
+        """module-level `x = r` / `x = r.a1...an` where the only module-level binding of r so far is an import:
+        x denotes whatever that chain denotes (possibly a module) -> BAttr chain over r's kind"""
+        attrs = []
+        while isinstance(v, ast.Attribute) and isinstance(v.ctx, ast.Load):
+            attrs.append(v.attr)
+            v = v.value
+        if not isinstance(v, ast.Name):
+            return None
+        kinds = self.import_kinds(v.id)
+        if len(kinds) != 1 or kinds[0][0] not in ('BImport', 'BFrom', 'BAttr'):
+            return None
+        bk = kinds[0]
+        for a in reversed(attrs):
+            bk = ('BAttr', bk, a)
+        return bk
+
+    def v_AnnAssign(self, n):
+        """PEP 526: in module and class scope the annotation is evaluated (and stored in __annotations__ for a
+        simple name); in a function it is never evaluated, but an annotated simple name is local there"""
+        in_function = self.cur.kind in ('KFunction', 'KLambda', 'KComp')
+        self.visit(n.value)
+        t = n.target
+        if isinstance(t, ast.Name):
+            if in_function:
+                self.bind(t.id, t.lineno)
+            else:
+                self.visit(n.annotation)
+                if n.value is not None:
+                    self.bind(t.id, t.lineno)
+                if n.simple:
+                    if not any((not isinstance(i, Scope)) and i[0] == 'Bind' and i[1] == '__annotations__'
+                               for i in self.cur.items):
+                        self.cur.bind('__annotations__', 0)      # SETUP_ANNOTATIONS
+                    self.cur.use('__annotations__', n.lineno)
+        else:
             self.target(t)
+            if not in_function:
+                self.visit(n.annotation)
 
     def v_AugAssign(self, n):
         t = n.target
         if isinstance(t, ast.Name):
             self.cur.use(t.id, t.lineno)          # x += v reads x, then binds it
-            self.cur.bind(t.id, t.lineno)
+            self.bind(t.id, t.lineno)
         elif isinstance(t, ast.Attribute):
             self.visit(t.value)                   # a.b.c += v : a.b is read as a chain, .c through the object
         elif isinstance(t, ast.Subscript):
@@ -239,14 +319,44 @@ class Translator:
         self.visits(n.body)
         self.visits(n.orelse)
 
+    def static_test(self, n):
+        """tests the compiler or a type checker decides: constant false / TYPE_CHECKING bodies never run, the
+        compiler drops code after constant tests: rejected rather than guessed"""
+        t = n.test
+        while isinstance(t, ast.UnaryOp) and isinstance(t.op, ast.Not):
+            t = t.operand
+        if isinstance(t, ast.Constant):
+            if not t.value or n.test is not t or n.orelse:
+                raise Gap(f'statically false or negated constant test at line {n.lineno}')
+        if (isinstance(t, ast.Name) and t.id in ('TYPE_CHECKING', '__debug__')) or \
+                (isinstance(t, ast.Attribute) and t.attr == 'TYPE_CHECKING'):
+            raise Gap(f'{ast.unparse(t)} guard at line {n.lineno}: its body does not run (or is compiled away)')
+
+    @staticmethod
+    def is_main_guard(t):
+        if not (isinstance(t, ast.Compare) and len(t.ops) == 1 and isinstance(t.ops[0], ast.Eq)):
+            return False
+        a, b = t.left, t.comparators[0]
+        for x, y in ((a, b), (b, a)):
+            if isinstance(x, ast.Name) and x.id == '__name__' and isinstance(y, ast.Constant) and y.value == '__main__':
+                return True
+        return False
+
     def v_While(self, n):
+        self.static_test(n)
         self.visit(n.test)
         self.visits(n.body)
         self.visits(n.orelse)
 
     def v_If(self, n):
+        self.static_test(n)
         self.visit(n.test)
-        self.visits(n.body)
+        if self.at_module_level() and self.is_main_guard(n.test) and self.inert is None:
+            self.inert = "inside if __name__ == '__main__': (not executed when the module is imported)"
+            self.visits(n.body)
+            self.inert = None
+        else:
+            self.visits(n.body)
         self.visits(n.orelse)
 
     def v_With(self, n):
@@ -267,7 +377,10 @@ class Translator:
         for h in n.handlers:
             self.visit(h.type)
             if h.name is not None:
-                self.cur.bind(h.name, h.lineno)
+                if self.at_module_level():
+                    self.bind(h.name, h.lineno, ('BInert', 'name of an except clause (deleted when the clause ends)'))
+                else:
+                    self.bind(h.name, h.lineno)
             self.visits(h.body)
         self.visits(n.orelse)
         self.visits(n.finalbody)
@@ -281,13 +394,13 @@ class Translator:
             if a.asname is None:
                 root = a.name.split('.')[0]
                 bk = ('BImport', root)
-                self.cur.bind(root, n.lineno, bk)
+                self.bind(root, n.lineno, bk)
                 self.imports.append((root, bk))
                 if a.name != root:
                     self.imports.append((None, ('BImport', a.name)))   # the whole path gets imported
             else:
                 bk = ('BImport', a.name)
-                self.cur.bind(a.asname, n.lineno, bk)
+                self.bind(a.asname, n.lineno, bk)
                 self.imports.append((a.asname, bk))
 
     def v_ImportFrom(self, n):
@@ -303,7 +416,7 @@ class Translator:
             if key == '__future__' and a.name == 'annotations':
                 raise Gap('from __future__ import annotations changes what is evaluated')
             bk = ('BFrom', key, a.name)
-            self.cur.bind(a.asname or a.name, n.lineno, bk)
+            self.bind(a.asname or a.name, n.lineno, bk)
             self.imports.append((a.asname or a.name, bk))
             if key in INTERNAL:
                 self.cur.items.append(('ImportFrom', key, a.name, n.lineno))
@@ -333,7 +446,7 @@ class Translator:
         if isinstance(t, ast.Name):
             if isinstance(t.ctx, ast.Load):
                 raise Gap('Load name as target')
-            self.cur.bind(t.id, t.lineno)
+            self.bind(t.id, t.lineno)
         elif isinstance(t, (ast.Tuple, ast.List)):
             for e in t.elts:
                 self.target(e)
@@ -355,7 +468,7 @@ class Translator:
         if any(s.kind == 'KComp' for s in self.stack):
             raise Gap(f'walrus inside a comprehension at line {n.lineno}')
         self.visit(n.value)
-        self.cur.bind(n.target.id, n.target.lineno)
+        self.bind(n.target.id, n.target.lineno)
 
     def v_BinOp(self, n):
         self.visit(n.left)
@@ -414,6 +527,14 @@ class Translator:
         self.visits(n.comparators)
 
     def v_Call(self, n):
+        if isinstance(n.func, ast.Name) and n.func.id == 'getattr' and len(n.args) == 2 and not n.keywords \
+                and isinstance(n.args[1], ast.Constant) and isinstance(n.args[1].value, str):
+            r = n.args[0]
+            while isinstance(r, ast.Attribute):
+                r = r.value
+            if isinstance(r, ast.Name) and any(k[0] in ('BImport', 'BFrom', 'BAttr') for k in self.import_kinds(r.id)):
+                raise Gap(f'getattr({ast.unparse(n.args[0])}, {n.args[1].value!r}) at line {n.lineno}: an attribute '
+                          f'read off an imported module written as a call; write {ast.unparse(n.args[0])}.{n.args[1].value}')
         self.visit(n.func)
         self.visits(n.args)
         for k in n.keywords:
@@ -462,6 +583,8 @@ class Translator:
             raise Gap(f'name in {type(n.ctx).__name__} context reached as an expression, line {n.lineno}')
         if n.id == '__class__':
             raise Gap('explicit __class__')
+        if n.id in ('exec', 'eval'):
+            raise Gap(f'{n.id} at line {n.lineno}: names bound or read by dynamic code cannot be modelled')
         self.cur.use(n.id, n.lineno)
 
     def v_List(self, n):
@@ -525,8 +648,6 @@ def module_facts(imports, chains):
         mods[key] = obj
 
     def imp(path):
-        if path in INTERNAL or path == '__future__':
-            return None
         try:
             return importlib.import_module(path)
         except Exception:
@@ -662,14 +783,19 @@ def run(repo, outdir):
         if write_if_changed(out, emit_module(tr)):
             info['rewritten'].append(f'Names_{m}.v')
         info['gen_files'].append(f'gen/Names_{m}.v')
-    # the fixed self-test source (scoping rules psiaudio rarely uses), compared with its bytecode by the harness
+    # the fixed self-test sources (scoping rules psiaudio rarely uses), compared with their bytecode - and, for
+    # selftest2, with what really happens when its functions are called - by the harness
     here = os.path.dirname(os.path.abspath(__file__))
-    tr, gap = translate_source(open(os.path.join(here, 'pynames_selftest.py')).read(), 'selftest')
-    if gap:
-        info['gaps']['selftest'] = gap
-    if write_if_changed(os.path.join(outdir, 'Names_selftest.v'), emit_module(tr)):
-        info['rewritten'].append('Names_selftest.v')
-    info['gen_files'].append('gen/Names_selftest.v')
+    for name in ('selftest', 'selftest2'):
+        tr, gap = translate_source(open(os.path.join(here, f'pynames_{name}.py')).read(), name)
+        if gap:
+            info['gaps'][name] = gap
+            print(f'C19 translator gap in {name}: {gap}', file=sys.stderr)
+        imports += tr.imports
+        chains += tr.chains
+        if write_if_changed(os.path.join(outdir, f'Names_{name}.v'), emit_module(tr)):
+            info['rewritten'].append(f'Names_{name}.v')
+        info['gen_files'].append(f'gen/Names_{name}.v')
     facts = module_facts(sorted(set(imports), key=repr), sorted(set(chains)))
     if write_if_changed(os.path.join(outdir, 'Names_env.v'), emit_env(facts)):
         info['rewritten'].append('Names_env.v')
